@@ -5,7 +5,6 @@ import (
 	"fmt"
 	"log"
 	"net"
-	"strconv"
 	"strings"
 
 	"raven/internal/blobstorage"
@@ -116,97 +115,15 @@ func handleUIDFetch(deps ServerDeps, conn net.Conn, tag string, parts []string, 
 // ===== UID SEARCH =====
 
 // handleUIDSearch implements UID SEARCH command
-// Returns UIDs instead of message sequence numbers
+// Evaluates the search program exactly as SEARCH does and returns UIDs
+// instead of message sequence numbers
 func handleUIDSearch(deps ServerDeps, conn net.Conn, tag string, parts []string, state *models.ClientState) {
-	if len(parts) < 4 {
-		deps.SendResponse(conn, fmt.Sprintf("%s BAD UID SEARCH requires search criteria", tag))
-		return
+	// Search criteria are everything after "UID SEARCH"
+	var args []string
+	if len(parts) > 3 {
+		args = parts[3:]
 	}
-
-	// Get appropriate database (user or role mailbox)
-	targetDB, _, err := deps.GetSelectedDB(state)
-	if err != nil {
-		deps.SendResponse(conn, fmt.Sprintf("%s NO Database error", tag))
-		return
-	}
-
-	// Get search criteria (everything after "UID SEARCH")
-	searchCriteria := strings.Join(parts[3:], " ")
-
-	// Query all messages in mailbox with UIDs
-	rows, err := targetDB.Query(`
-		SELECT mm.message_id, mm.uid, mm.flags, mm.internal_date,
-			(SELECT COUNT(*) FROM message_mailbox mm2
-			 WHERE mm2.mailbox_id = mm.mailbox_id AND mm2.uid <= mm.uid) as seq_num
-		FROM message_mailbox mm
-		WHERE mm.mailbox_id = ?
-		ORDER BY mm.uid
-	`, state.SelectedMailboxID)
-
-	if err != nil {
-		deps.SendResponse(conn, fmt.Sprintf("%s NO UID SEARCH failed: %v", tag, err))
-		return
-	}
-	defer func() { _ = rows.Close() }()
-
-	// Build message info structures
-	type uidMessageInfo struct {
-		messageID    int64
-		uid          int
-		seqNum       int
-		flags        string
-		internalDate string
-	}
-
-	var messages []uidMessageInfo
-	for rows.Next() {
-		var msg uidMessageInfo
-		err := rows.Scan(&msg.messageID, &msg.uid, &msg.flags, &msg.internalDate, &msg.seqNum)
-		if err != nil {
-			continue
-		}
-		messages = append(messages, msg)
-	}
-
-	// Evaluate search criteria - returns matching UIDs
-	var matchingUIDs []string
-	criteriaUpper := strings.ToUpper(searchCriteria)
-
-	if criteriaUpper == "ALL" {
-		for _, msg := range messages {
-			matchingUIDs = append(matchingUIDs, strconv.Itoa(msg.uid))
-		}
-	} else if strings.Contains(criteriaUpper, "UID ") {
-		// Extract UID range
-		parts := strings.Fields(searchCriteria)
-		for i, part := range parts {
-			if strings.ToUpper(part) == "UID" && i+1 < len(parts) {
-				uidRange := parts[i+1]
-				if strings.Contains(uidRange, ":") {
-					rangeParts := strings.Split(uidRange, ":")
-					if len(rangeParts) == 2 {
-						start, _ := strconv.Atoi(rangeParts[0])
-						end, _ := strconv.Atoi(rangeParts[1])
-						for _, msg := range messages {
-							if msg.uid >= start && msg.uid <= end {
-								matchingUIDs = append(matchingUIDs, strconv.Itoa(msg.uid))
-							}
-						}
-					}
-				}
-				break
-			}
-		}
-	} else {
-		// Default: return all UIDs
-		for _, msg := range messages {
-			matchingUIDs = append(matchingUIDs, strconv.Itoa(msg.uid))
-		}
-	}
-
-	// Return matching UIDs
-	deps.SendResponse(conn, fmt.Sprintf("* SEARCH %s", strings.Join(matchingUIDs, " ")))
-	deps.SendResponse(conn, fmt.Sprintf("%s OK UID SEARCH completed", tag))
+	message.SearchSelectedMailbox(deps, conn, tag, "UID SEARCH", args, true, state)
 }
 
 // ===== UID STORE =====
